@@ -286,6 +286,10 @@ func runLocksWorker(cfg *config) error {
 				case 0: // attach
 					if s.docs[d] == nil {
 						doc := document.New(key.Key(fmt.Sprintf("locks-%d-%d", cfg.seed, d)))
+						go func() { // an application that never reads Events() blocks its own document
+							for range doc.Events() {
+							}
+						}()
 						opts := []interface{}{}
 						if r.Bool() {
 							opts = append(opts, client.WithRealtimeSync())
@@ -395,6 +399,9 @@ func runLocksWorker(cfg *config) error {
 	close(stop)
 	wg.Wait()
 	// quiescence: whoever is still attached syncs a few rounds; then compare per document
+	// a client attached before a forced compaction is stale (refused by design, property C10):
+	// only replicas whose final syncs all succeed take part in the comparison
+	failedFinal := map[*document.Document]bool{}
 	for round := 0; round < 4; round++ {
 		for _, s := range slots {
 			if s == nil {
@@ -402,7 +409,9 @@ func runLocksWorker(cfg *config) error {
 			}
 			for _, doc := range s.docs {
 				if doc != nil {
-					_ = guarded("Sync", func(ctx context.Context) error { return s.cli.Sync(ctx, client.WithKey(doc.Key())) })
+					if err := guarded("Sync", func(ctx context.Context) error { return s.cli.Sync(ctx, client.WithKey(doc.Key())) }); err != nil {
+						failedFinal[doc] = true
+					}
 				}
 			}
 		}
@@ -411,7 +420,7 @@ func runLocksWorker(cfg *config) error {
 	for d := 0; d < nDocs; d++ {
 		var contents []string
 		for _, s := range slots {
-			if s != nil && s.docs[d] != nil && s.docs[d].IsAttached() {
+			if s != nil && s.docs[d] != nil && s.docs[d].IsAttached() && !failedFinal[s.docs[d]] {
 				contents = append(contents, s.docs[d].Marshal())
 			}
 		}
